@@ -34,7 +34,7 @@ class C01(RecorderProp):
             case['fresh_before_last'] = True        # replay by another recorder
         return case
 
-    THREADS = {'quick': 40, 'thorough': 600}
+    THREADS = {'quick': 150, 'thorough': 2000}
 
     def generate(self, rng, tier):
         # worker threads inside the operation (no theorem: partial) - inputs are looked up by key, outputs use thread-disjoint
@@ -45,6 +45,68 @@ class C01(RecorderProp):
         if case.get('kind') == 'threads':
             return T.run_record_replay_threads(case)
         return super(C01, self).run_impl(case)
+
+    # -- threads: the model (PlaybackModel/ThreadsReplay.lean) runs the same thread programs under schedules of ITS OWN -----
+    @staticmethod
+    def thread_programs(case):
+        """per worker: the calls on its aliases in happens-before order (what the operation's own thread sends on a
+        worker's alias before starting / after joining it is placed before / after the worker's calls)"""
+        progs = []
+        for wi, calls in enumerate(case['workers']):
+            pre = [{'site': 'out', 'arg': c['arg']} for c in case.get('pre', []) if c['w'] == wi]
+            post = [{'site': 'out', 'arg': c['arg']} for c in case.get('post', []) if c['w'] == wi]
+            progs.append(pre + list(calls) + post)
+        return progs
+
+    def model_requests(self, case):
+        if case.get('kind') != 'threads':
+            return super(C01, self).model_requests(case)
+        import random
+        rnd = random.Random(case['rand'] * 7 + 1)
+        threads, world = [], {}
+        for wi, calls in enumerate(self.thread_programs(case)):
+            prog = []
+            for c in calls:
+                if c['site'] == 'in':
+                    prog.append({'in': True, 'name': 'in:%d' % c['arg'], 'arg': '', 'res': ''})
+                    world['in:%d' % c['arg']] = 'value:%d:%d' % (c['arg'], c['arg'] * 7)
+                else:
+                    prog.append({'in': False, 'name': 'out%d' % wi, 'arg': '%d' % c['arg'], 'res': 'ack:%d:%d' % (wi, c['arg'])})
+            threads.append(prog)
+        n = len(threads)
+        total = sum(len(p) for p in threads)
+        return [{'m': 'c01.threads', 'threads': threads, 'world': sorted(world.items()),
+                 's1': [rnd.randrange(n + 1) for _ in range(2 * total)], 's2': [rnd.randrange(n + 1) for _ in range(2 * total)]}]
+
+    def model_transcript(self, case, answers):
+        if case.get('kind') != 'threads':
+            return super(C01, self).model_transcript(case, answers)
+        a = answers[0]
+        op_out = ['output: _tape_recorder_operation #1.output', repr({'args': ['done'], 'kwargs': {}})]
+
+        def outs(rows):
+            return sorted([['output: %s #%d.output' % (al, k), repr({'args': [int(arg)], 'kwargs': {}})] for _, al, k, arg in rows] + [op_out])
+        return {'record': a['record'], 'replay': a['replay'], 'recorded': outs(a['recorded']), 'playback': outs(a['playback']),
+                'complete': a['complete']}
+
+    def impl_view(self, case, impl):
+        if case.get('kind') != 'threads':
+            return super(C01, self).impl_view(case, impl)
+
+        def txt(o):
+            return 'exc:' + o[1] if o[0] == 'exc' else ':'.join(str(x) for x in o[1])
+
+        def per_thread(results):
+            workers, main = results[:-1], list(results[-1])
+            pre, post = case.get('pre', []), case.get('post', [])
+            main_pre, main_post = main[:len(pre)], main[len(pre):]
+            out = []
+            for wi, res in enumerate(workers):
+                out.append([txt(o) for c, o in zip(pre, main_pre) if c['w'] == wi] + [txt(o) for o in res] +
+                           [txt(o) for c, o in zip(post, main_post) if c['w'] == wi])
+            return out
+        return {'record': per_thread(impl['record']['results']), 'replay': per_thread(impl['replay']['results']),
+                'recorded': impl['outputs'].get('recorded'), 'playback': impl['outputs'].get('playback'), 'complete': True}
 
     def sample_repr(self, case):
         return case if case.get('kind') == 'threads' else super(C01, self).sample_repr(case)
